@@ -540,12 +540,34 @@ func BuildPolicyData(config *sharedConfig.PoliciesConfig, diagnosisFreeReverted 
 	if err != nil {
 		return nil, errors.Join(errors.New("failed to build policy tree"), err)
 	}
+	ensurePluginTypes(config)
 	notifyEnabledPlugins(config)
 	return &PoliciesData{
 		Config:                *config,
 		EndpointPolicyTree:    *policyTree,
 		diagnosisFreeReverted: diagnosisFreeReverted,
 	}, nil
+}
+
+// ensurePluginTypes infers the type of every remedy and diagnosis now. Type()
+// infers it on first use and stores it inside the configuration; once the data
+// is published that first use would be a write made by one transaction while
+// others read the same configuration.
+func ensurePluginTypes(config *sharedConfig.PoliciesConfig) {
+	for i := range config.Global.Remedies {
+		_ = config.Global.Remedies[i].Type()
+	}
+	for i := range config.Global.Diagnosis {
+		_ = config.Global.Diagnosis[i].Type()
+	}
+	for endpointI := range config.Endpoints {
+		for i := range config.Endpoints[endpointI].Remedies {
+			_ = config.Endpoints[endpointI].Remedies[i].Type()
+		}
+		for i := range config.Endpoints[endpointI].Diagnosis {
+			_ = config.Endpoints[endpointI].Diagnosis[i].Type()
+		}
+	}
 }
 
 func notifyEnabledPlugins(config *sharedConfig.PoliciesConfig) {
